@@ -602,6 +602,143 @@ def slate_shard(items) -> str:
             + "Eval vm_compute in (failing_codes codes 0).\n")
 
 
+# ---- the dataslate as an object: span-changing methods, then to_databox(span="full" | "base") ----
+
+def gen_slate_ops_case(rng) -> dict:
+    case = gen_slate_case(rng)
+    n = case["n"]
+    if rng.random() < 0.85:                      # declared base columns: a contiguous block inside the span
+        a = rng.randint(0, n - 1)
+        b = rng.randint(a, n - 1)
+        case["base"] = list(range(a, b + 1))
+    else:
+        case["base"] = None
+    base = case["base"] or []
+    if base and rng.random() < 0.75:             # the layout of a model with lags and leads
+        mms = [-base[0], n - 1 - base[-1]]
+    else:
+        mms = [rng.randint(-3, 1), rng.randint(-1, 3)]
+    case["mms"] = mms
+    ops = []
+    cur_n, first = n, (base[0] if base else 0)
+    for _ in range(rng.choice([0, 1, 1, 2, 2, 3])):
+        q = rng.random()
+        if q < 0.3:
+            k = rng.choice([first, first, rng.randint(0, max(cur_n, 1)), rng.randint(0, 2), -1 if rng.random() < 0.1 else 1])
+            ops.append(["remove_start", k]); cur_n = max(cur_n - max(k, 0), 0); first = max(first - max(k, 0), 0)
+        elif q < 0.45:
+            k = rng.choice([rng.randint(0, 2), rng.randint(0, max(cur_n, 1)), mms[1]])
+            ops.append(["remove_end", k]); cur_n = max(cur_n - max(k, 0), 0)
+        elif q < 0.55:
+            ops.append(["add_end", rng.randint(0, 2)])
+        elif q < 0.72:
+            ops.append(["remove_initial"]); cur_n = max(cur_n + min(mms[0], 0), 0); first = max(first + min(mms[0], 0), 0)
+        elif q < 0.82:
+            ops.append(["remove_terminal"]); cur_n = max(cur_n - max(mms[1], 0), 0)
+        elif q < 0.91:
+            nm = case["names"] if case["names"] is not None else [k_ for k_, _ in case["db"]]
+            pool = list(nm) + ["nope"]
+            ops.append(["rename", {o_: rng.choice(["r1", "r2", "r3"] + list(nm)) for o_ in rng.sample(pool, rng.randint(0, min(2, len(pool))))}])
+        else:
+            lo = case["from"] - 1
+            ops.append(["set_base", sorted(rng.sample(range(lo, lo + n + 2), rng.randint(0, min(3, n + 2))))])
+    case["ops"] = ops
+    return case
+
+
+def apply_slate_op(ds, op, fr):
+    k = op[0]
+    if k == "remove_start":
+        ds.remove_periods_from_start(op[1])
+    elif k == "remove_end":
+        ds.remove_periods_from_end(op[1])
+    elif k == "add_end":
+        ds.add_periods_to_end(op[1])
+    elif k == "remove_initial":
+        ds.remove_initial()
+    elif k == "remove_terminal":
+        ds.remove_terminal()
+    elif k == "rename":
+        ds.rename(dict(op[1]))
+    else:
+        ds.base_periods = [sc.mk_period(fr, t) for t in op[1]]
+
+
+def run_slate_ops(case) -> tuple[dict, dict, dict]:
+    import irispie as ir
+    from irispie.dataslates.main import Dataslate
+    try:
+        db = mk_db(case["db"])
+        span = ir.Span(sc.mk_period(case["fr"], case["from"]), sc.mk_period(case["fr"], case["from"] + case["n"] - 1))
+        kw = {"min_max_shift": tuple(case["mms"])}
+        if case["base"] is not None:
+            kw["base_columns"] = tuple(case["base"])
+        ds = Dataslate.from_databox(db, case["names"], span, num_variants=case["nvar"], fallbacks=case["fallbacks"],
+                                    overwrites=case["overwrites"], clip_data_to_base_span=case["clip"], **kw)
+        for op in case["ops"]:
+            apply_slate_op(ds, op, case["fr"])
+        st = {"ok": {"names": list(ds.names), "periods": [int(p.serial) for p in ds.periods],
+                     "arrays": [np.asarray(ds.get_data_variant(k), dtype=float).tolist() for k in range(ds.num_variants)]}}
+        try:
+            st["ok"]["base_periods"] = {"ok": [int(p.serial) for p in ds.base_periods]}
+        except Exception as e:  # noqa
+            st["ok"]["base_periods"] = {"err": err_code(e)}
+    except Exception as e:  # noqa
+        code = err_code(e)
+        return {"err": code, "exc": f"{type(e).__name__}: {e}"[:160]}, {"err": code}, {"err": code}
+    outs = []
+    for mode in ("full", "base"):
+        try:
+            outs.append({"ok": observe_db(ds.to_databox(span=mode, trim=case["trim"]))})
+        except Exception as e:  # noqa
+            outs.append({"err": err_code(e), "exc": f"{type(e).__name__}: {e}"[:160]})
+    return st, outs[0], outs[1]
+
+
+def c_slop(op) -> str:
+    k = op[0]
+    if k == "remove_start":
+        return f"SRemoveStart {coq_z(op[1])}"
+    if k == "remove_end":
+        return f"SRemoveEnd {coq_z(op[1])}"
+    if k == "add_end":
+        return f"SAddEnd {coq_z(op[1])}"
+    if k == "remove_initial":
+        return "SRemoveInitial"
+    if k == "remove_terminal":
+        return "SRemoveTerminal"
+    if k == "rename":
+        return "SRename " + coq_list([f"({cstr(a)}, {cstr(b)})" for a, b in op[1].items()])
+    return "SSetBase " + coq_list([coq_z(t) for t in op[1]])
+
+
+def c_arrays(arrs) -> str:
+    return coq_list([coq_list([coq_list([coq_float(x) for x in row]) for row in arr]) for arr in arrs])
+
+
+def c_slate_ops_case(case, st, full, base) -> str:
+    nms = "None" if case["names"] is None else f"(Some {c_strlist(case['names'])})"
+    o = (f"(mkSopts FA {cnat(case['nvar'])} {c_fb(case['fallbacks'])} {c_fb(case['overwrites'])} "
+         f"{coq_bool(case['clip'])} {coq_list([cnat(i) for i in (case['base'] or [])])})")
+    if "err" in st:
+        cst = f"(Err {st['err']}%nat)"
+    else:
+        x = st["ok"]
+        bp = x["base_periods"]
+        cbp = f"(Err {bp['err']}%nat)" if "err" in bp else f"(Ok {coq_list([coq_z(t) for t in bp['ok']])})"
+        cst = (f"(Ok ({c_strlist(x['names'])}, {coq_list([coq_z(t) for t in x['periods']])}, {cbp},\n"
+               f"      ({c_arrays(x['arrays'])} : slate FA)))")
+    ops = coq_list([c_slop(op) for op in case["ops"]])
+    return (f"  check_slate_ops tb {c_db(case['db'])} {nms} {coq_z(case['fr'])} {coq_z(case['from'])} {cnat(case['n'])}\n"
+            f"    {o} ({coq_z(case['mms'][0])}, {coq_z(case['mms'][1])}) {ops} {coq_bool(case['trim'])}\n    {cst}\n"
+            f"    {c_res_db(full)}\n    {c_res_db(base)}")
+
+
+def slate_ops_shard(items) -> str:
+    return (HEADER + "Definition codes : list nat := [\n" + ";\n".join(c_slate_ops_case(*it) for it in items) + "\n].\n"
+            + "Eval vm_compute in (failing_codes codes 0).\n")
+
+
 # ====================================================================== CSV
 
 def rand_csv_db(rng) -> tuple[list, dict]:
@@ -897,9 +1034,11 @@ def correspondence(ctx) -> CorrResult:
     n_imp = max(1, int(dev * ctx.scale(60, 1500)))
     n_slate = max(1, int(dev * ctx.scale(200, 5000)))
     n_hist = max(1, int(dev * ctx.scale(130, 3200)))
+    n_sops = max(1, int(dev * ctx.scale(160, 4000)))
     nops = 8
     dist = {"csv": {"delimiter": {}, "round": {}, "nan_str": {}, "blocks": {}, "options": {}, "import_errors": {}},
             "slate": {"errors": {}, "variants": {}, "with_fallbacks": 0, "with_overwrites": 0, "clip_to_base": 0},
+            "slate_methods": {"method": {}, "errors": {}, "base_conversion": {}},
             "ops": {"kind": {}, "errors": {}, "steps": 0},
             "mutated_import": {"errors": {}}}
     shards, meta = [], []      # meta[k] = (kind, items)
@@ -976,6 +1115,25 @@ def correspondence(ctx) -> CorrResult:
     for i in range(0, len(sl_items), per):
         shards.append(slate_shard(sl_items[i:i + per])); meta.append(("slate", sl_items[i:i + per]))
 
+    # ---- dataslates as objects: span-changing methods, then both conversions
+    so_items = []
+    for i in range(n_sops):
+        case = gen_slate_ops_case(rng)
+        st, full, base = run_slate_ops(case)
+        so_items.append((case, st, full, base))
+        d = dist["slate_methods"]
+        for op in case["ops"]:
+            _bump(d["method"], op[0])
+        if "err" in st:
+            _bump(d["errors"], st.get("exc", "?").split(":")[0])
+        else:
+            _bump(d["base_conversion"], "ok" if "ok" in base else "raises")
+            if case["ops"] and "ok" in base and base["ok"]:
+                nontrivial.add("sops:" + repr((case["db"], case["names"], case["from"], case["n"], case["base"], case["ops"])))
+    per = 80
+    for i in range(0, len(so_items), per):
+        shards.append(slate_ops_shard(so_items[i:i + per])); meta.append(("slate_methods", so_items[i:i + per]))
+
     # ---- operation histories
     hs = []
     for i in range(n_hist):
@@ -992,7 +1150,7 @@ def correspondence(ctx) -> CorrResult:
     for i in range(0, len(hs), per):
         shards.append(ops_shard(hs[i:i + per])); meta.append(("ops", hs[i:i + per]))
 
-    res.evaluations = len(csv_items) + len(imp_items) + len(sl_items) + dist["ops"]["steps"]
+    res.evaluations = len(csv_items) + len(imp_items) + len(sl_items) + len(so_items) + dist["ops"]["steps"]
     res.distinct_nontrivial = len(nontrivial)
     res.distribution = dist
     res.rule = ("csv: a random databox (series of 1-6 frequencies incl. integer and daily, 1-3 variants, interior missing "
@@ -1001,7 +1159,9 @@ def correspondence(ctx) -> CorrResult:
                 "module is compared cell by cell with the model's grid, and Databox.from_csv_file(file) with the model's "
                 "import; mutated sheets are imported by both sides. slate: Dataslate.from_databox(...).to_databox() with "
                 "random names, span, variants, fallbacks, overwrites, base columns; arrays and the written databox are "
-                "compared. ops: histories of up to 8 databox operations over 3 databoxes with random name selections "
+                "compared; slate methods: the same followed by 0-3 of remove_periods_from_start / _from_end, add_periods_to_end, "
+                "remove_initial, remove_terminal, rename, base_periods=..., then names, periods, base periods, arrays and "
+                "to_databox(span=full|base) are compared. ops: histories of up to 8 databox operations over 3 databoxes with random name selections "
                 "(lists, single names, predicates, renaming functions), the destination databox compared after every "
                 "step. non-trivial = at least one block and 2 data rows / a non-empty slate / 3+ executed operations; "
                 "distinct = distinct case text")
@@ -1045,6 +1205,11 @@ def _disagreement(kind, item, code) -> Disagreement:
         case, sl, back = item
         return Disagreement("slate:arrays" if code == 1 else "slate:to_databox", case, "model differs",
                             sl if code == 1 else back)
+    if kind == "slate_methods":
+        case, st, full, base = item
+        where = {1: "slate:state-after-methods", 2: "slate:to_databox(full)-after-methods",
+                 3: "slate:to_databox(base)-after-methods"}.get(code, "slate:methods")
+        return Disagreement(where, case, "model differs", {1: st, 2: full, 3: base}.get(code))
     h = item
     step = code - 1
     op = h["ops"][step] if step < len(h["ops"]) else None
@@ -1233,6 +1398,84 @@ def falsify(ctx, hints):
         if len(fails) > 12:
             break
 
+    # 2b. the dataslate as an object: built on an extended span with declared base columns, periods removed from the
+    #     start / end (remove_initial, remove_terminal, remove_periods_from_*), then converted back on the base span and
+    #     on the remaining span: the input values on those periods, nothing else
+    n = ctx.scale(120, 2500)
+    info["slate_method_checks"] = 0
+    for it in range(n):
+        f = rng.choice(FREQ_LIST)
+        base = base_start(rng, f)
+        names = rng.sample(NAME_POOL, rng.randint(1, 4))
+        spec = [[nm, rand_series(rng, f, rng.choice([1, 2, 3]), base + rng.randint(-2, 3), maxlen=10)] for nm in names]
+        frm = base + rng.randint(-3, 2)
+        npd = rng.randint(2, 10)
+        nvar = rng.choice([1, 2, 3])
+        a = rng.randint(0, npd - 1)
+        b = rng.randint(a, npd - 1)
+        mms = (-a, npd - 1 - b)
+        steps = []
+        cut_start, cut_end = 0, 0
+        for _ in range(rng.choice([1, 1, 2, 3])):
+            q = rng.random()
+            if q < 0.3 and cut_start == 0:
+                steps.append(["remove_initial"]); cut_start += a
+            elif q < 0.55:
+                k = rng.choice([a - cut_start, rng.randint(0, a - cut_start)])
+                steps.append(["remove_start", k]); cut_start += k
+            elif q < 0.7 and cut_end == 0:
+                steps.append(["remove_terminal"]); cut_end += npd - 1 - b
+            elif q < 0.85:
+                k = rng.randint(0, npd - 1 - b - cut_end)
+                steps.append(["remove_end", k]); cut_end += k
+            else:
+                steps.append(["copy"])
+        inp = {"db": spec, "freq": f, "from": frm, "periods": npd, "num_variants": nvar, "base_columns": [a, b],
+               "min_max_shift": list(mms), "methods": steps}
+        repro = ("ds = Dataslate.from_databox(db, names, span, num_variants=nvar, base_columns=range(a, b+1), "
+                 "min_max_shift=(-a, n-1-b)); <methods>; ds.to_databox(span='base', trim=False)")
+        try:
+            db = mk_db(spec)
+            span = ir.Span(sc.mk_period(f, frm), sc.mk_period(f, frm + npd - 1))
+            ds = Dataslate.from_databox(db, names, span, num_variants=nvar, base_columns=tuple(range(a, b + 1)),
+                                        min_max_shift=mms)
+            for st_ in steps:
+                if st_[0] == "copy":
+                    ds = ds.copy()
+                else:
+                    apply_slate_op(ds, st_, f)
+            got_base_periods = [int(p.serial) for p in ds.base_periods]
+            got_periods = [int(p.serial) for p in ds.periods]
+            back_base = ds.to_databox(span="base", trim=False)
+            back_full = ds.to_databox(span="full", trim=False)
+            info["slate_method_checks"] += 1
+        except Exception as e:  # noqa
+            add("slate:methods:raises", f"dataslate method sequence raises {type(e).__name__}: {e}"[:200], inp, repr(e)[:200],
+                None, repro)
+            continue
+        want_base_periods = list(range(frm + a, frm + b + 1))
+        want_periods = list(range(frm + cut_start, frm + npd - cut_end))
+        if got_base_periods != want_base_periods or got_periods != want_periods:
+            add("slate:methods:periods", "periods / base periods are wrong after removing initial or terminal periods", inp,
+                {"periods": got_periods, "base_periods": got_base_periods},
+                {"periods": want_periods, "base_periods": want_base_periods}, repro)
+            continue
+        for mode, back, lo, hi in (("base", back_base, frm + a, frm + b),
+                                   ("full", back_full, frm + cut_start, frm + npd - 1 - cut_end)):
+            sp = ir.Span(sc.mk_period(f, lo), sc.mk_period(f, hi))
+            for nm in names:
+                x, y = db[nm], back[nm]
+                want = np.column_stack([x.get_data(sp, min(k, x.num_variants - 1)).reshape(-1) for k in range(nvar)])
+                ok = (y.start is not None and int(y.start.serial) == lo and y.data.shape == want.shape
+                      and _same_values(y.data, want))
+                if not ok:
+                    add(f"slate:methods:to_databox-{mode}",
+                        f"to_databox(span={mode!r}) of {nm!r} is not the input on the {mode} span after the methods", inp,
+                        {"start": None if y.start is None else int(y.start.serial), "data": y.data.tolist()},
+                        {"start": lo, "data": want.tolist()}, repro)
+        if len(fails) > 12:
+            break
+
     # 3. databox operations: unselected names untouched, selected ones get the series / dict semantics
     n = ctx.scale(150, 3000)
     for it in range(n):
@@ -1241,7 +1484,8 @@ def falsify(ctx, hints):
         A, B = mk_db(sa), mk_db(sb)
         before = dict(observe_db(A))
         order_before = list(A.keys())
-        op = rng.choice(["remove", "keep", "rename", "rename", "overlay", "underlay", "clip", "merge", "copy", "copy", "prepend"])
+        op = rng.choice(["remove", "keep", "rename", "rename", "overlay", "underlay", "clip", "merge", "copy", "copy", "prepend",
+                         "empty-selection", "empty-selection"])
         inp = {"self": sa, "other": sb, "op": op}
         info["frame_checks"] += 1
         try:
@@ -1259,6 +1503,30 @@ def falsify(ctx, hints):
                     A.keep(l)
                     after = dict(observe_db(A))
                     want = {k: v for k, v in before.items() if k in l}
+                elif op == "empty-selection":
+                    # a selection that resolves to no name at all: keep -> nothing left, copy -> empty databox,
+                    # remove / rename -> nothing changes
+                    how = rng.choice(["empty-list", "empty-tuple", "absent-names", "predicate"])
+                    sel_ = {"empty-list": [], "empty-tuple": (), "absent-names": ["absent", "missing"],
+                            "predicate": (lambda nm: False)}[how]
+                    method = rng.choice(["keep", "keep", "copy", "copy", "remove", "rename"])
+                    inp["selection"], inp["method"] = how, method
+                    op = f"{method}:empty-selection"
+                    if method == "keep":
+                        A.keep(sel_)
+                        after, want = dict(observe_db(A)), {}
+                    elif method == "copy":
+                        tgt_ = rng.choice([None, None, (lambda nm: "c_" + nm)]) if how != "absent-names" else rng.choice([None, ["x", "y"]])
+                        C = A.copy(sel_, tgt_)
+                        after, want = dict(observe_db(C)), {}
+                        if not _obs_equal_db(dict(observe_db(A)), before):
+                            add("ops:copy-modifies-source", "copy modified its source", inp)
+                    elif method == "remove":
+                        A.remove(sel_)
+                        after, want = dict(observe_db(A)), dict(before)
+                    else:
+                        A.rename(sel_, (lambda nm: "r_" + nm))
+                        after, want = dict(observe_db(A)), dict(before)
                 elif op in ("rename", "copy"):
                     l = rng.sample(order_before, min(3, len(order_before)))
                     if rng.random() < 0.6:
